@@ -148,8 +148,10 @@ CLAIMED['C03'] = dict(
           'scatter of observations u_n a (|u_n| = 1) is rank one with the prototype as its only non-trivial eigenvector; Parseval '
           "for the eigenbasis contract; the MODEL's cACG quadratic form equals c2 + (1-c2)/eps for spectrum (1, eps, ..., eps), is 1 "
           'for the own class and > 1 otherwise; hence the next E-step keeps every observation in its true class for cACG '
-          '(pi_k/pi_j < q^D, in particular equal weights) and for Watson / vMF (kappa (1 - al) > ln(pi_k/pi_j)). NOT proved: '
-          'perturbed prototypes, blurred starts, iterations >= 2, Gaussian / Bingham / integration models (eigenvector perturbation '
+          '(pi_k/pi_j < q^D, in particular equal weights) and for Watson / vMF (kappa (1 - al) > ln(pi_k/pi_j)); for the GMM with a '
+          "shared spherical covariance c the model's SphericalGaussian log-pdf ranks the classes by weight-adjusted squared distance "
+          '(|y - mu_j|^2 + 2 c ln(pi_k/pi_j) < |y - mu_k|^2 gives MAP class j, every D). NOT proved: '
+          'perturbed prototypes, blurred starts, iterations >= 2, full / diagonal Gaussian / Bingham / integration models (eigenvector perturbation '
           "bounds are out of reach): those clauses are EXPLORED - the property's own predicate (MAP class = true class for every "
           'observation; fitted parameters point at their prototype) is evaluated on every generated scene from the stated domain '
           '(K 2..4, D K..8, |cos| <= 0.3, perturbation 0 / 1e-4 / 1e-2, class sizes >= D+2, gains 1e-3..1e3, blur 0..0.45, 1..20 '
